@@ -42,6 +42,7 @@ struct StaticCfg {
     fam_mask: u64,
     addpath: u8,
     gr: bool,
+    active: bool,
 }
 
 fn addr_pool() -> Vec<&'static str> {
@@ -72,7 +73,7 @@ impl Check for Admission {
                     _ => 65001 + i,
                 };
                 jobj! {"addr" => format!("10.0.1.{}", i + 1), "asn" => asn, "hold" => *rng.pick(&[0u64, 9, 90, 180]), "admin_down" => rng.chance(1, 5),
-                       "rs" => kind == 3, "rr" => kind == 1 && rng.coin(), "fams" => *rng.pick(&[0u64, 1, 3, 5, 15]), "addpath" => rng.below(4), "gr" => rng.chance(1, 3)}
+                       "rs" => kind == 3, "rr" => kind == 1 && rng.coin(), "fams" => *rng.pick(&[0u64, 1, 3, 5, 15]), "addpath" => rng.below(4), "gr" => rng.chance(1, 3), "active" => rng.chance(2, 5)}
             })
             .collect();
         let prefixes = ["10.9.0.0/16", "10.9.1.0/24", "2001:db8:9::/48", "10.9.1.64/26", "0.0.0.0/0"];
@@ -89,13 +90,14 @@ impl Check for Admission {
         let mut ops = Vec::new();
         for _ in 0..n {
             let a = rng.below(pool.len() as u64);
-            match rng.weighted(&[30, 12, 14, 4, 4, 3, 3]) {
+            match rng.weighted(&[30, 12, 14, 4, 4, 3, 3, 6]) {
                 0 => ops.push(jarr!["conn", a, rng.below(4), *rng.pick(&[0u64, 1, 3, 5, 15]), rng.below(4)]),
                 1 => ops.push(jarr!["handshake", a]),
                 2 => ops.push(jarr!["close", a]),
                 3 => ops.push(jarr!["disable", rng.below(n_static)]),
                 4 => ops.push(jarr!["enable", rng.below(n_static)]),
                 5 => ops.push(jarr!["second", a]),
+                7 => ops.push(jarr!["dial", rng.below(n_static), rng.below(4), *rng.pick(&[0u64, 1, 3, 5, 15]), rng.below(4), rng.chance(1, 3)]),
                 _ => ops.push(jarr!["wait", *rng.pick(&[10u64, 4000])]),
             }
         }
@@ -112,7 +114,7 @@ impl Check for Admission {
 
     fn info(&self) -> CheckInfo {
         CheckInfo {
-            rule: "1-3 static neighbours (eBGP / iBGP / RR client / RS client / confed member, admin-down flags, hold 0/9/90/180, family sets, add-path modes, GR) and 0-3 peer groups with dynamic prefixes (nested and overlapping IPv4, IPv6, 0.0.0.0/0); connections from 11 source addresses inside and outside them; ops connect (with a drawn remote capability list: family set, add-path mode 0-3, GR), complete the handshake, close, open a second connection in the same direction, operator disable/enable, waits. Oracle on the wire and on Global: a connection is served (OPEN sent) iff the reference admission predicate holds, otherwise closed before any OPEN byte; the OPEN's AS (confederation id towards non-members), hold time, router id and capability list equal the neighbour's or group's configuration; role read back from the peer record equals the reference; both negotiate(a,b)/negotiate(b,a) give mirror-image parameters; a dynamic neighbour's record disappears when its last connection ends. non-trivial = at least one dynamic neighbour was created or one connection was refused".into(),
+            rule: "1-3 static neighbours (eBGP / iBGP / RR client / RS client / confed member, admin-down flags, hold 0/9/90/180, family sets, add-path modes, GR) and 0-3 peer groups with dynamic prefixes (nested and overlapping IPv4, IPv6, 0.0.0.0/0); connections from 11 source addresses inside and outside them; ops connect (with a drawn remote capability list: family set, add-path mode 0-3, GR), complete the handshake, close, open a second connection in the same direction, operator disable/enable, waits, and `dial`: the remote side of a non-passive neighbour listens and takes the daemon's own outgoing connection, in one third of the cases with an operator task that disables the neighbour at the instant the TCP handshake completes (after the connect task queued the socket, before the dispatch loop took it). Oracle on the wire and on Global: a connection is served (OPEN sent) iff the reference admission predicate holds, otherwise closed before any OPEN byte; the OPEN's AS (confederation id towards non-members), hold time, router id and capability list equal the neighbour's or group's configuration; role read back from the peer record equals the reference; both negotiate(a,b)/negotiate(b,a) give mirror-image parameters; a dynamic neighbour's record disappears when its last connection ends. non-trivial = at least one dynamic neighbour was created or one connection was refused".into(),
             components_real: vec!["accept_connection, Global::add_peer, PeerParams::{build,build_local_cap}, Peer::peer_role, PeerSession::run (delete-on-disconnect)".into(), "packet::{IpNet::contains, PeerCodec::negotiate}".into(), "fsm::PeerFsm (effective send-max)".into(), "GrpcService::{disable_peer,enable_peer}".into()],
             components_stubbed: vec!["TCP (the remote address is whatever the scenario says), clock, listener loop, remote speakers".into()],
             assumptions: vec!["where several dynamic prefixes match, any matching group may be chosen (the statement does not pick one)".into()],
@@ -149,6 +151,7 @@ async fn run(case: Json, tol: Tolerate) -> Outcome {
                     fam_mask: j.i("fams", 0) as u64,
                     addpath: j.i("addpath", 0) as u8,
                     gr: j.get("gr").map(|b| b.as_bool()).unwrap_or(false),
+                    active: j.get("active").map(|b| b.as_bool()).unwrap_or(false),
                 })
                 .collect()
         })
@@ -179,6 +182,7 @@ async fn run(case: Json, tol: Tolerate) -> Outcome {
         let mut ps = PeerSpec::new(s.addr.parse().unwrap(), s.asn);
         ps.holdtime = s.hold;
         ps.admin_down = s.admin_down;
+        ps.passive = !s.active;
         ps.rs_client = s.rs;
         ps.rr_client = s.rr;
         ps.families = fams_of(s.fam_mask).into_iter().map(|f| (f, s.addpath & 3)).collect();
@@ -233,10 +237,72 @@ async fn run(case: Json, tol: Tolerate) -> Outcome {
     for (opi, op) in ops.iter().enumerate() {
         let tag = op.at(0).as_str().to_string();
         match tag.as_str() {
-            "conn" | "second" => {
-                let a = op.at(1).as_usize() % pool.len();
-                let addr = pool[a];
-                let has = conns.get(&a).map(|s| s.conn.is_some() && s.state != SpkState::Closed).unwrap_or(false);
+            "conn" | "second" | "dial" => {
+                let dial = tag == "dial";
+                let mut dialled: Option<net::TcpStream> = None;
+                let a = if dial { usize::MAX } else { op.at(1).as_usize() % pool.len() };
+                let addr = if dial { statics[op.at(1).as_usize() % statics.len()].addr.parse::<IpAddr>().unwrap() } else { pool[a] };
+                if dial {
+                    // The daemon's own (active) connection to a configured neighbour: the remote side
+                    // listens for up to 8 virtual seconds. In race mode an operator disables the
+                    // neighbour at the instant the TCP handshake completes, that is after the connect
+                    // task queued the socket and before the dispatch loop has taken it.
+                    let i = op.at(1).as_usize() % statics.len();
+                    if !statics[i].active {
+                        continue;
+                    }
+                    let race = op.at(5).as_bool();
+                    let la = SocketAddr::new(addr, Global::BGP_PORT);
+                    let mut rx = net::listen(la);
+                    let (stx, mut srx) = mpsc::unbounded_channel::<(net::TcpStream, bool)>();
+                    let operator = GrpcService::new(Arc::new(tokio::sync::Notify::new()), w.active_tx.clone(), w.global.clone(), w.tables.clone());
+                    let address = statics[i].addr.clone();
+                    let gl = w.global.clone();
+                    let jh = tokio::spawn(async move {
+                        if let Some(s) = rx.recv().await {
+                            // had the dispatch loop already admitted the connection (possible only when
+                            // both were runnable before this task was first polled)?
+                            let admitted_before = {
+                                let g = gl.read().await;
+                                g.peers.get(&addr).map(|p| p.context.lock().unwrap().conn_arbiter.lock().unwrap().is_slot_taken(crate::fsm::Role::Active)).unwrap_or(false)
+                            };
+                            net::log_event("dial-taken", race as u64, admitted_before as u64);
+                            if race {
+                                let _ = operator.disable_peer(tonic::Request::new(api::DisablePeerRequest { address, ..Default::default() })).await;
+                            }
+                            let _ = stx.send((s, admitted_before));
+                        }
+                    });
+                    let mut admitted_before = false;
+                    for _ in 0..80 {
+                        tokio::time::sleep(Duration::from_millis(100)).await;
+                        if let Ok((s, ab)) = srx.try_recv() {
+                            dialled = Some(s);
+                            admitted_before = ab;
+                            break;
+                        }
+                    }
+                    net::unlisten(la);
+                    jh.abort();
+                    if dialled.is_none() {
+                        out.hit("op.dial.daemon-did-not-connect");
+                        continue;
+                    }
+                    out.hit("op.dial.daemon-connected");
+                    if race {
+                        admin_down[i] = true;
+                        if admitted_before {
+                            // admitted while administratively up, then shut down: nothing to judge here
+                            out.hit("op.dial.disable-came-after-dispatch");
+                            if let Some(s) = dialled.take() {
+                                drop(s);
+                            }
+                            continue;
+                        }
+                        out.hit("fault.disable-between-tcp-connect-and-dispatch");
+                    }
+                }
+                let has = !dial && conns.get(&a).map(|s| s.conn.is_some() && s.state != SpkState::Closed).unwrap_or(false);
                 if tag == "conn" && has {
                     continue;
                 }
@@ -276,7 +342,10 @@ async fn run(case: Json, tol: Tolerate) -> Outcome {
                 let mut sp = Speaker::new(addr, asn, rid, 90, caps);
                 sp.auto_open = false;
                 sp.auto_ka = false;
-                sp.connect(&w, &PipeOpts::default(), &PipeOpts::default());
+                match dialled.take() {
+                    Some(s) => sp.attach(s),
+                    None => sp.connect(&w, &PipeOpts::default(), &PipeOpts::default()),
+                }
                 for _ in 0..3 {
                     w.quiesce().await;
                     sp.process_inbox(net::now_ms());
@@ -287,6 +356,7 @@ async fn run(case: Json, tol: Tolerate) -> Outcome {
                 if expect_admit != got_open {
                     let why = match (st, expect_admit) {
                         (Some(_), false) if has => "second-connection-same-direction-served",
+                        (Some(_), false) if dial => "admin-down-neighbour-served/outgoing-connection",
                         (Some(_), false) => "admin-down-neighbour-served",
                         (None, false) => "unknown-address-served",
                         (Some(_), true) => "configured-neighbour-refused",
